@@ -354,7 +354,7 @@ def run(ck, facts):
     if ncall < 1:
         ck.bad("R5", "c::gen_result_ty/callers-floor", "no caller of gen_result_ty found in the C backend")
     fl = tmpl.flat_file("dart/result.dart.jinja", resolve_includes=False)
-    ck.expect(re.search(r"external ⟦name⟧Union union;.*?@ffi\.Bool\(\)\s*external bool isOk;", fl, re.S) is not None, "R5", "dart/result", "union; @ffi.Bool isOk", "Dart result record shape changed", "tool/templates/dart/result.dart.jinja")
+    ck.expect(re.search(r"external ⟦\s*[\w.]+\s*⟧Union union;.*?@ffi\.Bool\(\)\s*external bool isOk;", fl, re.S) is not None, "R5", "dart/result", "union; @ffi.Bool isOk", "Dart result record shape changed", "tool/templates/dart/result.dart.jinja")
     for rel, exp in (("kotlin/Result.kt.jinja", ["union", "isOk"]), ("kotlin/Option.kt.jinja", ["value", "isOk"])):
         text = tmpl.flat_file(rel, resolve_includes=False)
         fo = re.search(r"listOf\((.*?)\)", text)
